@@ -65,3 +65,16 @@ Definition reduce_diag (d : nat) (U : mat) (cprim cres : list Z) (gprim gres : Z
 (* the points of the box [0,n0) x [0,n1) x [0,n2): coset representatives of an upper-triangular supercell *)
 Definition box3 (n0 n1 n2 : nat) : list (nat * nat * nat) :=
   flat_map (fun x => flat_map (fun y => map (fun z => (x, y, z)) (seq 0 n2)) (seq 0 n1)) (seq 0 n0).
+
+(* ---- certificate that minlattice() finished: the returned cell is sorted and pair-reduced -------------------- *)
+(* Gm = (integer multiple of) the metric of the returned cell.  The code stops only when, after sorting the vectors by
+   length, round(g_01/g_00) = round(g_02/g_00) = round(g_12/g_11) = 0, i.e. |2 g_ij| <= g_ii (ties allowed). *)
+Definition pair_reducedb (Gm : mat) (i j : nat) : bool := Z.abs (2 * Gm i j) <=? Gm i i.
+Definition reducedb (d : nat) (Gm : mat) : bool :=
+  match d with
+  | 2%nat => (0 <? Gm 0%nat 0%nat) && (Gm 0%nat 0%nat <=? Gm 1%nat 1%nat) && pair_reducedb Gm 0 1
+  | 3%nat => (0 <? Gm 0%nat 0%nat) && (Gm 0%nat 0%nat <=? Gm 1%nat 1%nat) && (Gm 1%nat 1%nat <=? Gm 2%nat 2%nat)
+             && pair_reducedb Gm 0 1 && pair_reducedb Gm 0 2 && pair_reducedb Gm 1 2
+  | _ => false end.
+(* squared length (times the same multiple) of a_j - u a_i *)
+Definition pair_len (Gm : mat) (i j : nat) (u : Z) : Z := Gm j j - 2 * u * Gm i j + u * u * Gm i i.
